@@ -517,3 +517,252 @@ Proof.
   - inversion Hin; subst. rewrite (O1 l N1), P0. reflexivity.
   - apply P1. exact Hin.
 Qed.
+
+(* ---- the general case: blocks may share a start (zero-duration cues of the first language) -------------------
+   Invariant J: of two blocks with the same start, the later one holds only paragraphs of the first language.
+   (Later languages always go to the FIRST block of a start, and new blocks are only created for new starts.) *)
+Definition all_class (cls0 : str) (y : sync) : Prop := forall p, In p (snd y) -> fst p = cls0.
+Fixpoint J (cls0 : str) (b : body) : Prop :=
+  match b with
+  | [] => True
+  | x :: r => (forall y, In y r -> fst y = fst x -> all_class cls0 y) /\ J cls0 r
+  end.
+
+Lemma J_app : forall cls0 a b, J cls0 (a ++ b) <->
+  J cls0 a /\ J cls0 b /\ (forall x y, In x a -> In y b -> fst y = fst x -> all_class cls0 y).
+Proof.
+  induction a as [|x a IH]; intros b; cbn [app J].
+  - split; [intros H; repeat split; auto; intros ? ? []|tauto].
+  - rewrite IH. split.
+    + intros (H1 & H2 & H3 & H4). repeat split; auto.
+      * intros y Hy. apply H1. apply in_app_iff. left. exact Hy.
+      * intros u v [<-|Hu] Hv; [apply H1; apply in_app_iff; right; exact Hv|apply H4; assumption].
+    + intros ((H1 & H2) & H3 & H4). repeat split; auto.
+      * intros y Hy. apply in_app_iff in Hy. destruct Hy as [Hy|Hy]; [apply H1; exact Hy|apply H4; [left; reflexivity|exact Hy]].
+      * intros u v Hu Hv. apply H4; [right; exact Hu|exact Hv].
+Qed.
+
+Lemma str_eqb_true_eq : forall a b, str_eqb a b = true -> a = b.
+Proof.
+  induction a as [|x a IH]; intros [|y b] Q; simpl in Q; try discriminate; [reflexivity|].
+  apply andb_prop in Q. destruct Q as [Q1 Q2]. f_equal; [lia|apply IH; exact Q2].
+Qed.
+
+Lemma all_class_no_cpars : forall cls0 cls y, all_class cls0 y -> str_eqb cls0 cls = false -> cpars cls [y] = [].
+Proof.
+  intros cls0 cls [s ps] A N. unfold cpars. cbn [flat_map fst snd]. rewrite app_nil_r.
+  assert (F : filter (fun p => str_eqb (fst p) cls) ps = []).
+  { unfold all_class in A. cbn [snd] in A. induction ps as [|p t IH]; [reflexivity|]. cbn [filter].
+    rewrite (A p (or_introl eq_refl)), N. apply IH. intros q Hq. apply A. right. exact Hq. }
+  rewrite F. reflexivity.
+Qed.
+
+(* placing a later language's paragraph (class cls <> cls0): appended to that class's sequence; sorted and J kept *)
+Lemma place_secondary_general : forall cls0 cls t x b, str_eqb cls0 cls = false ->
+  sorted b -> J cls0 b -> upper cls b t ->
+  cpars cls (place false t (cls, x) b) = cpars cls b ++ [(t, x)] /\ J cls0 (place false t (cls, x) b).
+Proof.
+  intros cls0 cls t x b N S Jb U. unfold place. destruct (add_to_first t (cls, x) b) as [b'|] eqn:A.
+  - destruct (add_to_first_placed _ _ _ _ A) as (pre & ps & post & E1 & E2 & E3). subst.
+    pose proof S as S0. apply sorted_app in S. destruct S as (S1 & S2 & S3). cbn [sorted] in S2. destruct S2 as [S2 S4].
+    apply J_app in Jb. destruct Jb as (J1 & J2 & J3). cbn [J fst] in J2. destruct J2 as [J2 J4].
+    assert (P : cpars cls post = []).
+    { apply cpars_none. intros y Hy. specialize (S2 y Hy). cbn [fst] in S2.
+      destruct (Z.eq_dec (fst y) t) as [Et|Nt].
+      - apply (all_class_no_cpars cls0); [apply J2; assumption|exact N].
+      - destruct (cpars cls [y]) eqn:Ec; [reflexivity|]. exfalso.
+        assert (fst y <= t) by (apply U; [apply in_app_iff; right; right; exact Hy|rewrite Ec; discriminate]). lia. }
+    split.
+    + change ((t, ps ++ [(cls, x)]) :: post) with ([(t, ps ++ [(cls, x)])] ++ post).
+      change ((t, ps) :: post) with ([(t, ps)] ++ post).
+      rewrite !cpars_app, cpars_block_snoc, P, !app_nil_r, <- app_assoc. reflexivity.
+    + apply J_app. split; [exact J1|]. split; [cbn [J fst]; split; [exact J2|exact J4]|].
+      intros u v Hu [<-|Hv] Ef.
+      * exfalso. cbn [fst] in Ef. apply (E3 u Hu). symmetry. exact Ef.
+      * apply (J3 u v Hu (or_intror Hv) Ef).
+  - pose proof (add_to_first_none _ _ _ A) as NT.
+    assert (Ins : forall pre post, b = pre ++ post ->
+              (forall y, In y post -> t < fst y) ->
+              cpars cls (pre ++ (t, [(cls, x)]) :: post) = cpars cls b ++ [(t, x)]
+              /\ J cls0 (pre ++ (t, [(cls, x)]) :: post)).
+    { intros pre post E Lq. subst b. apply J_app in Jb. destruct Jb as (J1 & J2 & J3).
+      assert (P : cpars cls post = []).
+      { apply (cpars_later_none cls _ post t U). intros y Hy. split; [apply in_app_iff; right; exact Hy|apply Lq; exact Hy]. }
+      split.
+      - change ((t, [(cls, x)]) :: post) with ([(t, [(cls, x)])] ++ post).
+        rewrite !cpars_app, cpars_new_block, P, !app_nil_r. reflexivity.
+      - apply J_app. split; [exact J1|]. split.
+        + cbn [J fst]. split; [|exact J2]. intros y Hy Ef. exfalso. specialize (Lq y Hy). lia.
+        + intros u v Hu [<-|Hv] Ef.
+          * exfalso. cbn [fst] in Ef. apply (NT u); [apply in_app_iff; left; exact Hu|symmetry; exact Ef].
+          * apply (J3 u v Hu Hv Ef). }
+    unfold find_closest. destruct (insert_after_last_earlier t (cls, x) b) as [b'|] eqn:B.
+    + destruct (insert_after_some _ _ _ _ B) as (pre0 & e & post & E1 & E2 & E3 & E4). subst b'.
+      pose proof (Ins (pre0 ++ [e]) post) as Q. rewrite <- !app_assoc in Q. cbn [app] in Q.
+      apply Q; [exact E1|].
+      intros y Hy. assert (t <= fst y) by (apply E4; exact Hy).
+      assert (fst y <> t) by (apply NT; subst b; apply in_app_iff; right; right; exact Hy). lia.
+    + pose proof (insert_after_none _ _ _ B) as L.
+      destruct (insert_before_first_later t (cls, x) b) as [b'|] eqn:C.
+      * destruct (insert_before_some _ _ _ _ C) as (pre & post & E1 & E2 & E3 & _). subst b'.
+        apply Ins; [exact E1|].
+        intros y Hy. assert (t <= fst y) by (apply L; subst b; apply in_app_iff; right; exact Hy).
+        assert (fst y <> t) by (apply NT; subst b; apply in_app_iff; right; exact Hy). lia.
+      * replace (b ++ [(t, [(cls, x)])]) with (b ++ (t, [(cls, x)]) :: []) by reflexivity.
+        apply Ins; [rewrite app_nil_r; reflexivity|intros y []].
+Qed.
+
+Lemma write_lang_secondary_general : forall cls0 cls caps last b, str_eqb cls0 cls = false ->
+  sorted b -> J cls0 b -> upper cls b last -> caps_sorted last caps ->
+  cpars cls (write_lang false cls caps last b) = cpars cls b ++ lang_pars caps last
+  /\ sorted (write_lang false cls caps last b) /\ J cls0 (write_lang false cls caps last b)
+  /\ (forall cls', str_eqb cls cls' = false -> cpars cls' (write_lang false cls caps last b) = cpars cls' b).
+Proof.
+  induction caps as [|c t IH]; intros last b N S Jb U C; cbn [write_lang lang_pars].
+  - rewrite app_nil_r. repeat split; auto.
+  - destruct C as (C1 & C2 & C3). set (time := wc_start c / 1000) in *.
+    set (blank := negb (last =? 0) && negb (time =? last)).
+    set (b1 := if blank then place false last (cls, nbsp_text) b else b).
+    assert (B1 : cpars cls b1 = cpars cls b ++ (if blank then [(last, nbsp_text)] else [])
+                 /\ sorted b1 /\ J cls0 b1 /\ upper cls b1 time
+                 /\ (forall cls', str_eqb cls cls' = false -> cpars cls' b1 = cpars cls' b)).
+    { unfold b1. destruct blank.
+      - destruct (place_secondary_general cls0 cls last nbsp_text b N S Jb U) as [A1 A2].
+        split; [exact A1|]. split; [apply place_secondary_sorted; exact S|]. split; [exact A2|]. split.
+        + apply (placed_upper cls last (cls, nbsp_text) b); [apply place_placed|eapply upper_mono; eauto|exact C1].
+        + intros cls' N'. apply (placed_other_class cls' cls last nbsp_text b); [apply place_placed|exact N'].
+      - rewrite app_nil_r. repeat split; auto. eapply upper_mono; eauto. }
+    destruct B1 as (P1 & S1 & J1 & U1 & O1).
+    destruct (place_secondary_general cls0 cls time (wc_text c) b1 N S1 J1 U1) as [P2 J2].
+    pose proof (place_secondary_sorted time (cls, wc_text c) b1 S1) as S2.
+    assert (U2 : upper cls (place false time (cls, wc_text c) b1) (wc_end c / 1000)).
+    { apply (placed_upper cls time (cls, wc_text c) b1); [apply place_placed|eapply upper_mono; eauto|exact C2]. }
+    destruct (IH (wc_end c / 1000) _ N S2 J2 U2 C3) as (P3 & S3 & J3 & O3).
+    split; [|split; [exact S3|split; [exact J3|]]].
+    + rewrite P3, P2, P1, <- !app_assoc. reflexivity.
+    + intros cls' N'. rewrite (O3 cls' N').
+      destruct (placed_other_class cls' cls time (wc_text c) b1 _ (place_placed false _ _ _) N') as [Q _].
+      rewrite Q. apply O1. exact N'.
+Qed.
+
+(* the first language: appended block by block; afterwards every paragraph is of that language *)
+Lemma write_lang_primary_general : forall cls caps last b, (forall y, In y b -> all_class cls y) ->
+  cpars cls (write_lang true cls caps last b) = cpars cls b ++ lang_pars caps last
+  /\ (forall y, In y (write_lang true cls caps last b) -> all_class cls y).
+Proof.
+  induction caps as [|c t IH]; intros last b A; cbn [write_lang lang_pars].
+  - rewrite app_nil_r. split; auto.
+  - set (time := wc_start c / 1000). set (blank := negb (last =? 0) && negb (time =? last)).
+    set (b1 := if blank then place true last (cls, nbsp_text) b else b).
+    assert (B1 : cpars cls b1 = cpars cls b ++ (if blank then [(last, nbsp_text)] else [])
+                 /\ (forall y, In y b1 -> all_class cls y)).
+    { unfold b1. destruct blank.
+      - unfold place. rewrite cpars_app, cpars_new_block. split; [reflexivity|].
+        intros y Hy. apply in_app_iff in Hy. destruct Hy as [Hy|[<-|[]]]; [apply A; exact Hy|].
+        intros p [<-|[]]. reflexivity.
+      - rewrite app_nil_r. split; [reflexivity|exact A]. }
+    destruct B1 as (P1 & A1).
+    destruct (IH (wc_end c / 1000) (place true time (cls, wc_text c) b1)) as (P3 & A3).
+    { unfold place. intros y Hy. apply in_app_iff in Hy. destruct Hy as [Hy|[<-|[]]]; [apply A1; exact Hy|].
+      intros p [<-|[]]. reflexivity. }
+    split; [|exact A3]. rewrite P3. unfold place at 1. rewrite cpars_app, cpars_new_block, P1, <- !app_assoc. reflexivity.
+Qed.
+
+Lemma all_class_J : forall cls0 b, (forall y, In y b -> all_class cls0 y) -> J cls0 b.
+Proof.
+  induction b as [|x r IH]; intros A; [exact I|]. cbn [J]. split.
+  - intros y Hy _. apply A. right. exact Hy.
+  - apply IH. intros y Hy. apply A. right. exact Hy.
+Qed.
+
+Lemma write_langs_secondary_general : forall cls0 cs b,
+  sorted b -> J cls0 b -> NoDup (map fst cs) -> ~ In cls0 (map fst cs) ->
+  (forall l caps, In (l, caps) cs -> caps_sorted 0 caps /\ cpars l b = []) ->
+  (forall l caps, In (l, caps) cs -> cpars l (write_langs false cs b) = lang_pars caps 0)
+  /\ (forall cls, ~ In cls (map fst cs) -> cpars cls (write_langs false cs b) = cpars cls b).
+Proof.
+  induction cs as [|[l caps] t IH]; intros b S Jb N N0 H; cbn [write_langs].
+  - split; [intros l caps []|auto].
+  - inversion N as [|? ? N1 N2]; subst.
+    destruct (H l caps (or_introl eq_refl)) as [C E].
+    assert (U : upper l b 0).
+    { intros y Hy Hn. exfalso. apply Hn. apply (cpars_nil_each l b E y Hy). }
+    assert (Nl : str_eqb cls0 l = false).
+    { destruct (str_eqb cls0 l) eqn:Q; [|reflexivity]. apply str_eqb_true_eq in Q. subst. exfalso. apply N0. left. reflexivity. }
+    destruct (write_lang_secondary_general cls0 l caps 0 b Nl S Jb U C) as (P1 & S1 & J1 & O1).
+    assert (Neq : forall l', In l' (map fst t) -> str_eqb l l' = false).
+    { intros l' Hl. destruct (str_eqb l l') eqn:Q; [|reflexivity]. apply str_eqb_true_eq in Q. subst. contradiction. }
+    destruct (IH (write_lang false l caps 0 b) S1 J1 N2) as (P2 & O2).
+    { intros C0. apply N0. right. exact C0. }
+    { intros l' caps' Hin. destruct (H l' caps' (or_intror Hin)) as [C' E']. split; [exact C'|].
+      rewrite O1; [exact E'|]. apply Neq. apply in_map_iff. exists (l', caps'). split; [reflexivity|exact Hin]. }
+    split.
+    + intros l' caps' [Hin|Hin].
+      * inversion Hin; subst. rewrite (O2 l' N1), P1, E. reflexivity.
+      * apply P2. exact Hin.
+    + intros cls Hc. rewrite O2 by (intros C'; apply Hc; right; exact C').
+      apply O1. destruct (str_eqb l cls) eqn:Q; [|reflexivity]. apply str_eqb_true_eq in Q. subst. exfalso. apply Hc. left. reflexivity.
+Qed.
+
+(* sami_language_order: whenever every language's cues are sorted (ms resolution; zero-duration and coinciding
+   cues allowed) and language names are distinct, the paragraphs of every language in the written body are exactly
+   the writer's sequence for its cue list, in order *)
+Theorem sami_language_order : forall cs, NoDup (map fst cs) ->
+  (forall l caps, In (l, caps) cs -> caps_sorted 0 caps) ->
+  forall l caps, In (l, caps) cs -> cpars l (sami_write cs) = lang_pars caps 0.
+Proof.
+  intros [|[l0 caps0] rest] N C l caps Hin; [destruct Hin|]. unfold sami_write. cbn [write_langs].
+  inversion N as [|? ? N1 N2]; subst.
+  destruct (write_lang_primary_general l0 caps0 0 [] (fun y (H : In y []) => match H with end)) as (P0 & A0).
+  assert (S0 : sorted (write_lang true l0 caps0 0 [])).
+  { apply write_lang_primary_sorted; [exact I|intros y []|apply (C l0 caps0); left; reflexivity]. }
+  destruct (write_langs_secondary_general l0 rest (write_lang true l0 caps0 0 []) S0 (all_class_J _ _ A0) N2 N1) as (P1 & O1).
+  { intros l' caps' H'. split; [apply (C l' caps'); right; exact H'|].
+    apply cpars_none. intros y Hy. apply (all_class_no_cpars l0); [apply A0; exact Hy|].
+    destruct (str_eqb l0 l') eqn:Q; [|reflexivity]. apply str_eqb_true_eq in Q. subst. exfalso. apply N1.
+    apply in_map_iff. exists (l', caps'). split; [reflexivity|exact H']. }
+  destruct Hin as [Hin|Hin].
+  - inversion Hin; subst. rewrite (O1 l N1), P0. reflexivity.
+  - apply P1. exact Hin.
+Qed.
+
+(* ---- in the terms of the oracle: the non-blank paragraphs of a language are its cues at start // 1000 -------- *)
+Definition nonblank (q : Z * str) : bool := negb (str_eqb (snd q) (lit "&nbsp;")).
+
+Lemma pars_block : forall (s : Z) cls (ps : list par),
+  map (fun p : str * str => (s, snd p)) (filter (fun p => str_eqb (fst p) cls && negb (SpecLangs.blank_par p)) ps)
+  = filter nonblank (map (fun p : str * str => (s, snd p)) (filter (fun p => str_eqb (fst p) cls) ps)).
+Proof.
+  induction ps as [|p t IH]; [reflexivity|]. cbn [filter].
+  destruct (str_eqb (fst p) cls) eqn:E; cbn [andb]; [|exact IH].
+  assert (NB : nonblank (s, snd p) = negb (SpecLangs.blank_par p)) by reflexivity.
+  cbn [map filter]. rewrite NB.
+  destruct (negb (SpecLangs.blank_par p)); cbn [map]; rewrite IH; reflexivity.
+Qed.
+
+Lemma pars_of_cpars : forall cls b, SpecLangs.pars_of cls b = filter nonblank (cpars cls b).
+Proof.
+  intros cls b. unfold SpecLangs.pars_of, cpars. induction b as [|[s ps] r IH]; [reflexivity|].
+  cbn [flat_map fst snd]. rewrite filter_app, IH, pars_block. reflexivity.
+Qed.
+
+Lemma lang_pars_nonblank : forall caps last,
+  (forall c, In c caps -> str_eqb (wc_text c) (lit "&nbsp;") = false) ->
+  filter nonblank (lang_pars caps last) = map (fun c => (wc_start c / 1000, wc_text c)) caps.
+Proof.
+  induction caps as [|c t IH]; intros last H; [reflexivity|]. cbn [lang_pars map].
+  rewrite filter_app. cbn [filter]. unfold nonblank at 2. cbn [snd]. rewrite (H c (or_introl eq_refl)). cbn [negb].
+  rewrite IH by (intros d Hd; apply H; right; exact Hd).
+  destruct (negb (last =? 0) && negb (wc_start c / 1000 =? last)); reflexivity.
+Qed.
+
+(* the model's body satisfies the list clause of the oracle ok_sami_body for every language *)
+Theorem sami_language_cues : forall cs, NoDup (map fst cs) ->
+  (forall l caps, In (l, caps) cs -> caps_sorted 0 caps) ->
+  (forall l caps c, In (l, caps) cs -> In c caps -> str_eqb (wc_text c) (lit "&nbsp;") = false) ->
+  forall l caps, In (l, caps) cs ->
+    SpecLangs.pars_of l (sami_write cs) = map (fun c => (wc_start c / 1000, wc_text c)) caps.
+Proof.
+  intros cs N C T l caps Hin. rewrite pars_of_cpars, (sami_language_order cs N C l caps Hin).
+  apply lang_pars_nonblank. intros c Hc. apply (T l caps c Hin Hc).
+Qed.
